@@ -1,14 +1,16 @@
 #!/usr/bin/env python3
-"""Validate MANIFEST.json and evidence/*.json against the schemas (needs jsonschema: python3-vt)."""
-import glob, json, sys
+"""Validate MANIFEST.json and evidence/*.json against the schemas (needs jsonschema: run with python3-vt)."""
+import glob, json, os, sys
 import jsonschema
+V = os.path.dirname(os.path.dirname(os.path.abspath(__file__)))
 ok = True
-jsonschema.validate(json.load(open('/verif/MANIFEST.json')), json.load(open('/root/.vp/MANIFEST.schema.json')))
+jsonschema.validate(json.load(open(V + '/MANIFEST.json')), json.load(open('/root/.vp/MANIFEST.schema.json')))
 es = json.load(open('/root/.vp/EVIDENCE.schema.json'))
-for f in sorted(glob.glob('/verif/evidence/C*.json')):
+for f in sorted(glob.glob(V + '/evidence/C*.json')):
     try:
         jsonschema.validate(json.load(open(f)), es)
     except Exception as e:
         ok = False
         print(f, 'INVALID', str(e)[:300])
 print('valid' if ok else 'INVALID')
+sys.exit(0 if ok else 1)
